@@ -92,7 +92,8 @@ def name_of(i):
     return _BY_ID[i]
 
 
-CTX = {'P': P, 'C1': C1, 'C2': C2, 'G': G, 'U': U, 'MI': MI, 'Text': Text, 'Counter': Counter}
+CTX = {'P': P, 'C1': C1, 'C2': C2, 'G': G, 'U': U, 'MI': MI, 'Text': Text, 'Counter': Counter, 'CQ': C2}
+# ('CQ': a name only a CALLING module binds - the generated modules do not; it reaches the library through the caller's frame alone)
 USER = [P, C1, C2, G, U, MI, Text, Counter]
 EXTRA_CTX = {}       # per-plugin additions (name -> placeholder class of the table) consulted when values are generated
 INST_FACTORY = {}    # placeholder class -> callable building the real instance (set by a plugin around build_val)
